@@ -1021,8 +1021,10 @@ func (m *Manager) PoolTransaction(id types.TransactionID) (types.Transaction, bo
 	m.mu.Lock()
 	defer m.mu.Unlock()
 	m.revalidatePool()
+	// v1 and v2 transactions share the index map, so make sure the index
+	// really refers to a v1 transaction with this ID
 	i, ok := m.txpool.indices[id]
-	if !ok {
+	if !ok || i >= len(m.txpool.txns) || m.txpool.txns[i].ID() != id {
 		return types.Transaction{}, false
 	}
 	return m.txpool.txns[i], ok
@@ -1043,8 +1045,10 @@ func (m *Manager) V2PoolTransaction(id types.TransactionID) (types.V2Transaction
 	m.mu.Lock()
 	defer m.mu.Unlock()
 	m.revalidatePool()
+	// v1 and v2 transactions share the index map, so make sure the index
+	// really refers to a v2 transaction with this ID
 	i, ok := m.txpool.indices[id]
-	if !ok {
+	if !ok || i >= len(m.txpool.v2txns) || m.txpool.v2txns[i].ID() != id {
 		return types.V2Transaction{}, false
 	}
 	return m.txpool.v2txns[i].DeepCopy(), ok
